@@ -15,6 +15,7 @@ import ChythonModel.Proofs.C03Bracket
 import ChythonModel.Proofs.C03HydSmiles
 import ChythonModel.Proofs.C03StringsB
 import ChythonModel.Proofs.C03Lenient
+import ChythonModel.Proofs.C03LenientIff
 import ChythonModel.Proofs.C03Words
 /-!
 # C03 — SMILES reader builds exactly the molecule the text denotes, rejects the rest
@@ -363,6 +364,49 @@ example : (denoteChainL aromB (⟨((false, { element := [67] }), []),
         (.next .implicit ((false, { element := [67] }), []) (.ring ⟨.none, 1⟩ .done))))⟩ : ChainL B)).map (·.bonds) =
     some [(1, 0, 1), (2, 0, 1), (3, 2, 1), (3, 0, 1)] := rfl
 
+/-- **Acceptance ⇔ lenient language, for ALL token lists** of the alphabet: with the grammar the reader actually
+    implements for the order of ring bonds and branches, the only classes left outside are the leading branch and
+    `((`/`()`: (accepted ∧ starts with an atom ∧ no `((`/`()`) ⇔ printing of a tree of `atom (ringbond | branch)*` that the
+    spec gives a simple graph with ordinary orders (ring-closure discipline as in `ringOne`). `InLanguageL` is defined in
+    `Proofs/C03LenientIff.lean` exactly like `InLanguage`, over `ChainL` / `denoteChainL`. -/
+theorem accept_iff_lenient_language (toks : List Tok) (hring : ∀ t ∈ toks, ringTok t = true) :
+    (Accepts toks ∧ startsAtom toks = true ∧ noEmptyOpen toks = true) ↔ InLanguageL toks := by
+  constructor
+  · rintro ⟨hacc, hsa, hneo⟩
+    cases toks with
+    | nil => cases hsa
+    | cons t rest =>
+      cases t with
+      | atom ty a => exact (accept_iff_lenient ty a rest hring hneo).mp hacc
+      | _ => cases hsa
+  · rintro ⟨c, g, hc, hrest⟩
+    obtain ⟨ty, a, rest, hshape⟩ := printChainL_starts_atom c
+    have h1 := printChainL_noEmptyOpen c
+    rw [← hc] at h1 hshape
+    subst hshape
+    exact ⟨(accept_iff_lenient ty a rest hring h1).mpr ⟨c, g, hc, hrest⟩, rfl, h1⟩
+
+/-- … and the record `parser` returns is the denotation of that tree -/
+theorem accepted_graph_is_denotation_lenient (ty : Nat) (a : AtomTok) (rest : List Tok) (st : PState)
+    (hring : ∀ t ∈ Tok.atom ty a :: rest, ringTok t = true) (hneo : noEmptyOpen (Tok.atom ty a :: rest) = true)
+    (h : parse false (Tok.atom ty a :: rest) = .ok st) (hb : bondsBuild st) :
+    ∃ (c : ChainL B) (g : Graph B), Tok.atom ty a :: rest = toToksB (printChainL c) ∧
+      denoteChainL aromB c = some g ∧ st.atoms = g.atoms.map (fun b => strip b.1) ∧
+      st.types = g.atoms.map (fun b => tyOf b.1) ∧ st.bonds = g.bonds :=
+  accepted_is_denotationL ty a rest st hring hneo h hb
+
+/-- string level: for every tokenizable string, accepted and starting with an atom ⇔ sentence of the lenient language -/
+theorem accept_iff_lenient_strings (s : Str) (toks : List Tok) (htok : smilesTokenize s = .ok toks) :
+    (Accepts toks ∧ startsAtom toks = true) ↔ InLanguageL toks := by
+  obtain ⟨hring, hneo⟩ := smilesTokenize_ring s toks htok
+  rw [← accept_iff_lenient_language toks hring]
+  constructor
+  · rintro ⟨h1, h2⟩; exact ⟨h1, h2, hneo⟩
+  · rintro ⟨h1, h2, _⟩; exact ⟨h1, h2⟩
+
+example : InLanguageL [tC, .lpar, tC, .rpar, .cyc 1, tC, tC, .cyc 1] :=        -- C(C)1CC1
+  (accept_iff_lenient_language _ (by decide)).mp ⟨⟨_, rfl, _, _, rfl, rfl⟩, rfl, rfl⟩
+
 /-- **End to end, on `smiles()` itself** (the function the driver runs), for a one-word molecule string (no blank, no `>`,
     hence no CXSMILES block): `smiles` returns a molecule **iff** the string tokenizes, `parser` accepts the tokens, every
     atom names an element with an admissible isotope and charge (`atomCheck` = `Element.from_symbol(…)(isotope, charge)`),
@@ -403,6 +447,28 @@ theorem sentence_is_read (data : Str) (hne : data ≠ []) (hw : splitWs data = [
   obtain ⟨hring, _⟩ := smilesTokenize_ring data toks htok
   obtain ⟨⟨st, hp, hb⟩, _⟩ := (accept_iff_ring_discipline_partial toks hring).mpr hin
   exact (smiles_ok_iff data hne hw hnr).mpr ⟨toks, st, htok, hp, hatoms st hp, hb⟩
+
+/-- **`smiles()` reads exactly the sentences**: for a one-word molecule string whose token list starts with an atom,
+    `smiles` returns a molecule **iff** the token list is a sentence of the lenient language and every atom is a valid
+    element / isotope / charge -/
+theorem smiles_reads_iff_sentence (data : Str) (hne : data ≠ []) (hw : splitWs data = [data])
+    (hnr : data.contains 62 = false) (toks : List Tok) (htok : smilesTokenize data = .ok toks)
+    (hsa : startsAtom toks = true) :
+    (∃ res, smiles data = .ok res) ↔
+      (InLanguageL toks ∧ ∀ st, parse false toks = .ok st → ∀ a ∈ st.atoms, ∃ z, atomCheck a = .ok z) := by
+  constructor
+  · intro h
+    obtain ⟨toks', st, htok', hp, hat, hb⟩ := (smiles_ok_iff data hne hw hnr).mp h
+    rw [htok] at htok'
+    cases htok'
+    refine ⟨(accept_iff_lenient_strings data toks htok).mp ⟨⟨st, hp, hb⟩, hsa⟩, ?_⟩
+    intro st' hp'
+    rw [hp] at hp'
+    cases hp'
+    exact hat
+  · rintro ⟨hin, hat⟩
+    obtain ⟨⟨st, hp, hb⟩, _⟩ := (accept_iff_lenient_strings data toks htok).mpr hin
+    exact (smiles_ok_iff data hne hw hnr).mpr ⟨toks, st, htok, hp, hat st hp, hb⟩
 
 example : ∃ res, smiles [67, 49, 67, 67, 49] = .ok res := ⟨_, rfl⟩          -- C1CC1
 example : splitWs [67, 49, 67, 67, 49] = [[67, 49, 67, 67, 49]] := rfl
